@@ -97,7 +97,7 @@ func genHex(n int, mixed bool) *rapid.Generator[string] {
 
 // mutate applies one generated edit to a well-formed string. Kind 0 leaves it intact.
 func mutate(t *rapid.T, s string) (string, string) {
-	kind := rapid.IntRange(0, 9).Draw(t, "mut")
+	kind := rapid.IntRange(0, 11).Draw(t, "mut")
 	b := []byte(s)
 	pos := func(n int) int {
 		if n <= 0 {
@@ -143,6 +143,16 @@ func mutate(t *rapid.T, s string) (string, string) {
 	case 8:
 		n := rapid.IntRange(0, len(b)).Draw(t, "cut")
 		return string(b[:n]), "truncate"
+	case 9:
+		// keeps the hex part all-hex and of even length: only the exact-length rule rejects it
+		k := rapid.SampledFrom([]int{1, 2, 2, 4, 24, 64}).Draw(t, "extend")
+		return s + genHex(k, true).Draw(t, "extra"), "extend-hex"
+	case 10:
+		k := rapid.SampledFrom([]int{1, 2, 2, 4, 8}).Draw(t, "shorten")
+		if k > len(b) {
+			k = len(b)
+		}
+		return string(b[:len(b)-k]), "shorten-hex"
 	default:
 		return rapid.String().Draw(t, "free"), "free-string"
 	}
